@@ -13,6 +13,8 @@ AllSpecials == {"loop", "nat64", "relay", "wrongtr"}
 \*         more than MaxTop eligible addresses with unequal counts.
 \* race:   three connections (two of one group) for C17_Race.tla (Check/Record split, close interleaving).
 \* async:  two connections for C17_Async.tla (identify events through the bounded worker queue).
+\* listen: a TCP and a UDP listen address that can go away and come back (C17_Listen.tla), two groups on each,
+\*         one connection that never arrived at a listen address.
 \* groups6: seven connections of five groups, three observed addresses; exhaustive check only.
 Table == [
   groups |-> [locals |-> {"tcp"}, addrs |-> <<"a1", "a2">>, specials |-> AllSpecials,
@@ -35,6 +37,10 @@ Table == [
      localOf  |-> [c1 |-> "tcp", c2 |-> "tcp"],
      remoteOf |-> [c1 |-> "r1", c2 |-> "r2"],
      groupOf  |-> [r1 |-> "g1", r2 |-> "g2"]],
+  listen |-> [locals |-> {"tcp", "udp"}, addrs |-> <<"a1", "a2">>, specials |-> {"loop"},
+     localOf  |-> [c1 |-> "tcp", c2 |-> "tcp", c3 |-> "udp", c4 |-> "udp", c5 |-> "off"],
+     remoteOf |-> [c1 |-> "r1", c2 |-> "r2", c3 |-> "r3", c4 |-> "r4", c5 |-> "r5"],
+     groupOf  |-> [r1 |-> "g1", r2 |-> "g2", r3 |-> "g1", r4 |-> "g2", r5 |-> "g3"]],
   groups6 |-> [locals |-> {"tcp"}, addrs |-> <<"a1", "a2", "a3">>, specials |-> {"loop", "wrongtr"},
      localOf  |-> [c1 |-> "tcp", c2 |-> "tcp", c3 |-> "tcp", c4 |-> "tcp", c5 |-> "tcp", c6 |-> "tcp", c7 |-> "tcp"],
      remoteOf |-> [c1 |-> "r1", c2 |-> "r2", c3 |-> "r3", c4 |-> "r4", c5 |-> "r5", c6 |-> "r6", c7 |-> "r7"],
